@@ -449,6 +449,11 @@ thread_local! {
   static REC_TX: RefCell<Option<Sender<Msg>>> = const { RefCell::new(None) };
 }
 
+/// is the calling thread a worker of a running schedule case?
+pub fn is_worker() -> bool {
+  matches!(ROLE.with(|r| r.get()), Role::Worker { .. })
+}
+
 fn ord_name(o: Ordering) -> &'static str {
   match o {
     Ordering::Relaxed => "rlx",
@@ -753,7 +758,7 @@ fn thread_op(sh: ShPtr, tid: usize, aid: u32, line: &str) -> String {
       }
       body
     }
-    "discard_freelist" | "set_minseg" | "inc_discarded" | "flush" => {
+    "discard_freelist" | "set_minseg" | "inc_discarded" | "flush" | "rd" | "rd_var" => {
       let mut sc = Case::scratch(aid, my_arena);
       let body = sc.body(line);
       let _ = sc.dismantle();
